@@ -201,6 +201,28 @@ def run_extra(spec, tier, seed):
                              "pickle": lambda: pickle.loads(pickle.dumps(X))})
             for aname, f in acts.items():
                 _check(res, aname, cell, watch, f)
+        # ---------------- constructors: the arrays, dicts, dtypes and behavior mappings handed to them are operands too
+        mine = {("__typestr__", "custom"): "custom", "marker": 1}
+        names_m = B.names_for(system, mom, spelling=1)
+        recs = [{nm: row[i] for i, nm in enumerate(names_m)} | {"charge": i % 3 - 1} for i, row in enumerate(rows)]
+        src_ak = ak.Array([recs[:3], [], recs[3:]], behavior=mine)
+        src_cols = {nm: ak.Array([[row[i] for row in rows[:3]], [], [row[i] for row in rows[3:]]], behavior=mine) for i, nm in enumerate(names_m)}
+        src_np = {nm: numpy.array([row[i] for row in rows]) for i, nm in enumerate(names_m)}
+        src_struct = numpy.array([tuple(row) for row in rows], dtype=[(nm, numpy.float64) for nm in names_m])
+        dt = numpy.dtype([(nm, numpy.float64) for nm in names_m])
+        cell = f"{sn}|{'mom' if mom else 'gen'}|constructors"
+        for aname, ops_, f in (
+                ("vector.Array(array with caller's behavior)", [src_ak, mine], lambda: vector.Array(src_ak)),
+                ("vector.Array(list, behavior=caller's)", [recs, mine], lambda: vector.Array(recs, behavior=mine)),
+                ("vector.zip(columns with caller's behavior)", [src_cols, mine], lambda: vector.zip(src_cols)),
+                ("vector.zip(columns) then rotateZ", [src_cols, mine], lambda: vector.zip(src_cols).rotateZ(0.25)),
+                ("vector.array(dict of arrays)", [src_np], lambda: vector.array(src_np)),
+                ("vector.array(structured)", [src_struct], lambda: vector.array(src_struct)),
+                ("vector.array(list, dtype=)", [dt], lambda: vector.array([tuple(row) for row in rows], dtype=dt)),
+                ("vector.obj(**dict)", [recs[0]], lambda: vector.obj(**{k: v for k, v in recs[0].items() if k != "charge"})),
+                ("ak.zip(with_name, behavior=vector's)", [src_cols], lambda: ak.zip(src_cols, with_name=f"{'Momentum' if mom else 'Vector'}{dim}D",
+                                                                                 behavior=vector.backends.awkward.behavior).rotateZ(0.1))):
+            _check(res, "constructor:" + aname, cell, ops_, f)
         # ---------------- non-vector array operands (weights, scale factors, angles) are operands too
         wbase = numpy.linspace(0.5, 2.25, 2 * n)
         WT = {"float64": wbase[:n].copy(), "strided-view": wbase[::2], "0-d": numpy.array(1.75), "length-1": numpy.array([1.75]),
